@@ -48,6 +48,24 @@ def docUpdateWith (all : List String × KV → String × String → List String 
 def docUpdate (idx : KV) (vs : List Entry) : KV := docUpdateWith docAllStep idx vs
 def docUpdatePinned (idx : KV) (vs : List Entry) : KV := docUpdateWith docAllStepPinned idx vs
 
+/-! ### a PUTALL batch as it comes out of the JSON decoder
+
+A writer is not bound to what the store API produces: `"docs":[null]` decodes to a batch with a nil
+member. `operation.GetDocs` leaves nil members out (after the `fix:` commit, finding F25); before it
+the member loop of `documentIndex.UpdateIndex` called `GetKey()` on the nil member, in the store's main
+loop. -/
+
+inductive BatchOutcome where
+  | ok (acc : List String × KV)
+  | panic
+deriving DecidableEq, Repr
+
+/-- the member loop over a decoded batch (`none` = a `null` member) -/
+def docAllRaw (skipNil : Bool) (acc : List String × KV) : List (Option (String × String)) → BatchOutcome
+  | [] => .ok acc
+  | none :: rest => if skipNil then docAllRaw skipNil acc rest else .panic
+  | some d :: rest => docAllRaw skipNil (docAllStep acc d) rest
+
 /-- ASCII lower-casing (the generators stay ASCII; Go's `strings.ToLower` is Unicode-aware) -/
 def lowerAscii (s : String) : String := s.map (fun c => if 'A' ≤ c ∧ c ≤ 'Z' then Char.ofNat (c.toNat + 32) else c)
 
